@@ -361,7 +361,7 @@ def main(tier, seed):
     try:
         translate()
         run.obligation("translate:core.save_sampler_state+load_sampler_state+cadence", True)
-    except TranslateError as e:
+    except Exception as e:  # fail closed: anything the translator cannot digest
         run.obligation("translate:core.save_sampler_state+load_sampler_state+cadence", False, str(e))
     run.prove("Props/C08.v", link_rels=["Link/Alias.v", "Link/Checkpoint.v"])
     work = Path(tempfile.mkdtemp(prefix="c08_", dir=run.scratch.dir))
